@@ -280,6 +280,12 @@ func (lc *leaderController) NewTerm(req *proto.NewTermRequest) (*proto.NewTermRe
 	}
 
 	lc.followers = nil
+
+	// Entries that were appended but are still waiting for their sync round are part
+	// of the log: make them durable (and visible to the reader) before reporting the head
+	if err := lc.wal.Sync(context.Background()); err != nil {
+		return nil, err
+	}
 	headEntryId, err := getLastEntryIdInWal(lc.wal)
 	if err != nil {
 		return nil, err
